@@ -407,8 +407,8 @@ PROPERTY = {
         level='proof',
         explanation='K1-K5 as post-conditions of the real mask / size / export code for ALL real architectural parameters: >= 1 feature, >= 1 tap, dilation >= 1, '
                     'frozen maskers keep full size, exported module sizes == summary(), export defined (no exception path). ' + _ENUM,
-        not_decided=['which width groups are frozen (build_shared_features_map: torch.fx / networkx pass) - the frozen maskers themselves are under contract',
-                     'that whole exported architectures run on inputs of the original shape (composition over the graph)',
+        not_decided=['which width groups are frozen and that whole exported architectures still run: decided only for the enumerated topologies of contracts/pit_graph.py and the enumerated '
+                     'whole models of contracts/whole_pit.py (bounded in topology), not for every architecture',
                      'float32 absorption for huge parameter values such as 1e30 (A-real)'],
         assumptions=['single-node fx bookkeeping (get_submodule / add_submodule / inserting_before / call_module) as specified in pyvc/torchlib.py'],
     ),
@@ -416,8 +416,8 @@ PROPERTY = {
         level='other',
         explanation='per layer: the chain producer -> [causal pad] -> searchable layer is exported and the exported chain is shown equal to the masked chain on '
                     'EVERY input (symbolic input, weights, BatchNorm statistics) for every reachable mask pattern; dead channels exactly zero. ' + _ENUM,
-        not_decided=['composition of the per-layer equivalences over every architecture of the grammar (needs the fx passes: which calculator / shared masker a '
-                     'layer is wired to - hypotheses H-dw, H-share, H-calc)', 'residual add / concat topologies beyond the calculator contracts of C09',
+        not_decided=['composition of the per-layer equivalences over EVERY architecture of the grammar: whole-model export equivalence is discharged only for the enumerated '
+                     'architectures of contracts/whole_pit.py (there with width masks symbolic, time / dilation masks at their initial value)',
                      'float round-off (A-real): equality is of real-valued terms'],
         assumptions=['the re-created BatchNorm is given the statistics of the one it replaces (the statement\'s exemption)',
                      'single-node fx bookkeeping as specified in pyvc/torchlib.py', 'input length = receptive field + 1 (2 for stride 2)'],
